@@ -82,6 +82,7 @@ def gen_case(rng):
     if via_source is not None:
         grid = [list(g) for g in itertools.product(*[range(len(c)) for c in chunks['flags']])]
         src_opts = dict(no_scale_key=rng.random() < 0.4, via_rdb=rng.random() < 0.35,
+                        inherit=rng.random() < 0.5, van_vleck=rng.random() < 0.25,
                         l1=(dict(seed=rng.randrange(2 ** 31), legacy=rng.random() < 0.5,
                                  missing=[g for g in grid if rng.random() < 0.3])
                             if (via_source and rng.random() < 0.5) else None))
@@ -265,9 +266,13 @@ def load_via_source(case, store, chunk_info, prefix, tmp):
             fv = telstate.view(fstream)
             fv['stream_type'] = 'sdp.flags'
             fv['src_streams'] = [stream]
+            if opts.get('inherit'):
+                fv['inherit'] = stream               # the usual layout: the flags stream inherits from its L0 stream
             archived.append(fstream)
         telstate['sdp_archived_streams'] = archived
         kw = dict(upgrade_flags=bool(case['via_source']))
+        if opts.get('van_vleck'):
+            kw['van_vleck'] = 'autocorr'
         if case['pre'] is not None:
             t0, t1, f0, f1 = case['pre']
             kw['preselect'] = dict(dumps=slice(t0, t1), channels=slice(f0, f1))
@@ -469,8 +474,24 @@ def evaluate(ctx, cases):
                     ctx.tag('via-source-rdb-file')
                 if (c.get('src_opts') or {}).get('no_scale_key'):
                     ctx.tag('via-source-no-power-scale-key')
+                if (c.get('src_opts') or {}).get('inherit') and l1:
+                    ctx.tag('via-source-l1-flags-inherit')
+                vv = bool((c.get('src_opts') or {}).get('van_vleck'))
+                if vv:
+                    # every product of these data sets is an autocorrelation, whose value the correction replaces (that
+                    # is C15's business); here: an element of a missing chunk stays exactly zero
+                    ctx.tag('via-source-van-vleck')
+                    if sr['vis'].shape == vis.shape:
+                        lost = (flags & 8) != 0
+                        lost_vis = lost & (vis == 0)
+                        if np.any(sr['vis'][lost_vis] != 0):
+                            w = np.argwhere(lost_vis & (sr['vis'] != 0))[0].tolist()
+                            v = (f"with van_vleck='autocorr' the visibility at {w}, which lies in a missing chunk, is "
+                                 f"{sr['vis'][tuple(w)]} instead of zero")
                 for nm, got, exp in (('vis', sr['vis'], vis), ('flags', sr['flags'], flags),
                                      ('weights', sr['weights'], weights)):
+                    if v is not None or (vv and nm == 'vis' and got.shape == exp.shape):
+                        continue
                     if got.shape != exp.shape or not np.array_equal(got, exp):
                         v = (f"through TelstateDataSource(upgrade_flags={bool(c['via_source'])}) {nm} "
                              f"(shape {got.shape}) differs from the stored data with zeros / data_lost at the "
